@@ -371,6 +371,13 @@ def write_bytecode_file(
             "writing bytecode for Python %s is not supported (need 2.3 or later)"
             % magicint2version[magic_int]
         )
+    if magic_int in (3400, 3401) and not isinstance(code_obj, types.CodeType):
+        # These two 3.8 alphas have no co_posonlyargcount field yet, which
+        # xdis.marsh writes for every 3.8 code object.
+        raise TypeError(
+            "writing bytecode for Python %s (magic %d) is not supported"
+            % (magicint2version[magic_int], magic_int)
+        )
     fp = open(bytecode_path, "wb")
     if version >= (3, 0):
         fp.write(pack("<Hcc", magic_int, b"\r", b"\n"))
